@@ -369,9 +369,11 @@ theorem binArr_frame (st : St F) (op : Op) (la : Nat) (right : Val F) : FrameR s
         · split
           · exact Frame.refl _
           · split
-            · rename_i es st' h
-              exact (replicateCopies_frame _ _ _ _ _ _ h).trans (alloc_frame _ _)
             · exact Frame.refl _
+            · split
+              · rename_i es st' h
+                exact (replicateCopies_frame _ _ _ _ _ _ h).trans (alloc_frame _ _)
+              · exact Frame.refl _
       · exact Frame.refl _
     · exact Frame.refl _
   · exact Frame.refl _
